@@ -73,11 +73,12 @@ def main():
             rc, o = sh(demo_cmd, so, timeout=1800)
             return rc, o[-1500:]
         rc1, o1 = run_demo()
-        sh("git stash", wt)
+        # (no `git stash`: the stash is shared by all worktrees of a repository and other agents use it too)
+        sh("git apply -R %s" % os.path.join(out, "patch.diff"), wt)
         try:
             rc0, o0 = run_demo()
         finally:
-            sh("git stash pop", wt)
+            sh("git apply %s" % os.path.join(out, "patch.diff"), wt)
         meta["demo"] = {"with_change_rc": rc1, "with_change_tail": o1, "without_change_rc": rc0, "without_change_tail": o0[-400:],
                         "confirmed": rc1 != 0 and rc0 == 0}
     # 4. our checks against the change
